@@ -1,14 +1,17 @@
 import Fpdec.Gen.Sites
 import Fpdec.Model.Pinned
 
-/-! Site ties for C01: the flavour skeleton of each anchor file, as regenerated from /repo on this run,
-equals the skeleton the model was written against. -/
+/-! Site ties for C01 (written by tools/mksites.py): the flavour skeleton of every source file the property's operations
+execute, as regenerated from /repo on this run, equals the skeleton the model was written against. -/
 
 namespace Fpdec.Props.C01
 
+theorem tie_sites_fpdec_core_src_lib : Gen.sites_fpdec_core_src_lib = Pinned.sites_fpdec_core_src_lib := by decide +kernel
+theorem tie_sites_fpdec_core_src_powers_of_ten : Gen.sites_fpdec_core_src_powers_of_ten = Pinned.sites_fpdec_core_src_powers_of_ten := by decide +kernel
+theorem tie_sites_src_lib : Gen.sites_src_lib = Pinned.sites_src_lib := by decide +kernel
+theorem tie_sites_src_binops_mod : Gen.sites_src_binops_mod = Pinned.sites_src_binops_mod := by decide +kernel
 theorem tie_sites_src_binops_add_sub : Gen.sites_src_binops_add_sub = Pinned.sites_src_binops_add_sub := by decide +kernel
 theorem tie_sites_src_binops_checked_add_sub : Gen.sites_src_binops_checked_add_sub = Pinned.sites_src_binops_checked_add_sub := by decide +kernel
-theorem tie_sites_fpdec_core_src_powers_of_ten : Gen.sites_fpdec_core_src_powers_of_ten = Pinned.sites_fpdec_core_src_powers_of_ten := by decide +kernel
-theorem tie_sites_src_binops_mod : Gen.sites_src_binops_mod = Pinned.sites_src_binops_mod := by decide +kernel
+theorem tie_sites_src_binops_cmp : Gen.sites_src_binops_cmp = Pinned.sites_src_binops_cmp := by decide +kernel
 
 end Fpdec.Props.C01
